@@ -72,6 +72,18 @@ func corpus() []*hist {
 		// a method on a nil receiver: String answers "<nil>", Len is a nil dereference - on both types
 		fixed("corpus-eq", true, zero, &gop{k: kNil, n: 0}, &gop{k: kNil, n: 1}, WB(1), &gop{k: kNil, n: 0}, RB, &gop{k: kNil, n: 0}, UB),
 		fixed("corpus-tex", false, zero, &gop{k: kNil, n: 0}, &gop{k: kNil, n: 1}, K(kString)),
+		// error identity through ReadFrom / WriteTo: wrapping io.EOF is not io.EOF; (0, nil) reads; EOF together with bytes
+		fixed("corpus-eq", true, zero, &gop{k: kReadFrom, sc: []chunk{{seq(3, 1), 50}}}, &gop{k: kReadFrom, sc: []chunk{{seq(2, 9), 0}, {nil, 52}}},
+			&gop{k: kReadFrom, sc: []chunk{{seq(1, 7), 51}}}, &gop{k: kReadFrom, sc: []chunk{{nil, 0}, {nil, 0}, {seq(2, 4), 1}}}, &gop{k: kReadFrom, sc: []chunk{{seq(1, 3), 53}}},
+			&gop{k: kReadFrom, sc: []chunk{{nil, 55}}}, &gop{k: kReadFrom, sc: []chunk{{nil, 50}}}, K(kBytes),
+			&gop{k: kWriteTo, m: 3, e: 50}, &gop{k: kWriteTo, m: 2, e: 0}, &gop{k: kWriteTo, m: 1, e: 1}, &gop{k: kWriteTo, m: 0, e: 52}, &gop{k: kWriteTo, m: 99, e: 51},
+			&gop{k: kWriteTo, m: 1, e: 53}, K(kBytes), &gop{k: kWriteTo, m: 2, e: 55}, &gop{k: kWriteTo, m: 9, e: 0}),
+		// every malformed UTF-8 shape once, read back rune by rune with UnreadRune in between, a truncated sequence last
+		fixed("corpus-eq", true, zero, W([]byte{0xed, 0xa0, 0x80, 0xed, 0xbf, 0xbf, 0xed, 0xb0, 0x95, 0xc0, 0x80, 0xc1, 0xbf, 0xe0, 0x80, 0x80, 0xe0, 0x9f, 0xbf,
+			0xf0, 0x80, 0x80, 0x80, 0xf0, 0x8f, 0xbf, 0xbf, 0xf4, 0x90, 0x80, 0x80, 0xf5, 0x80, 0x80, 0x80, 0xff, 0x80, 0xbf, 0xc2, 0x41, 0xe2, 0x82, 0x41,
+			0xf0, 0x9f, 0x98, 0x41, 0xed, 0x9f, 0xbf, 0xee, 0x80, 0x80, 0xf4, 0x8f, 0xbf, 0xbf, 0xe2, 0x82}),
+			RR, UR, RR, RR, RR, RR, UR, RR, RR, RR, RR, RR, UB, RR, RR, RR, RR, RR, RR, RR, UR, RR, RR, RR, RR, RR, RR, RR, RR, RR, RR, RR, RR, RR, RR, RR, RR, RR, RR,
+			RR, RR, RR, RR, RR, RR, RR, UR, RR, RR, RR, RR, RR, RR, RR, RR, RR, RR, RR, RR),
 		// NewSizedBuffer
 		fixed("corpus-tex", false, initSpec{k: iNewSized, size: -1}),
 		fixed("corpus-tex", false, initSpec{k: iNewSized, size: 0}, K(kBytes), K(kLen), K(kCap), WB(1), RB, UB),
